@@ -239,8 +239,11 @@ func (matrix *DenseReal32Matrix) SetIdentity() {
   }
 }
 func (matrix *DenseReal32Matrix) Reset() {
-  for i := 0; i < len(matrix.values); i++ {
-    matrix.values[i].Reset()
+  n, m := matrix.Dims()
+  for i := 0; i < n; i++ {
+    for j := 0; j < m; j++ {
+      matrix.values[matrix.index(i, j)].Reset()
+    }
   }
 }
 func (matrix *DenseReal32Matrix) Row(i int) Vector {
